@@ -18,6 +18,8 @@ Terms == {"pressure", "tension", "bending", "angle", "all"}
 P_NetForceZero  == ~Lat => \A t \in Terms : R.terms[t].net_ok
 P_NetTorqueZero == ~Lat => \A t \in Terms : R.terms[t].torque_ok
 P_RigidCovariance == ~Lat => \A t \in Terms : R.terms[t].cov_ok
-P_EnergyGradients == ~Lat => (R.fd_pressure_ok /\ R.fd_tension_ok)
+\* the forces are functions of the surface and its labels, not of the order in which the triangles are stored
+P_StorageOrder == ~Lat => \A t \in Terms : R.terms[t].renum_ok
+P_EnergyGradients == ~Lat => (R.fd_pressure_ok /\ R.fd_tension_ok /\ R.fd_bending_ok)
 P_TermsActive == ~Lat => \A t \in Terms : R.terms[t].active \/ R.zero_ok[t]
 =============================================================================
